@@ -80,6 +80,9 @@ func (pass *DisjunctionInferMapping) inferDiscriminatorField(schema *ast.Schema,
 	fieldName := ""
 	// map[typeName][fieldName]value
 	candidates := make(map[string]map[string]any)
+	// candidate field names for each type, in declaration order: used to
+	// pick the discriminator deterministically.
+	candidateNames := make(map[string][]string)
 
 	// Identify candidates from each branch
 	for _, branch := range def.Branches {
@@ -107,6 +110,7 @@ func (pass *DisjunctionInferMapping) inferDiscriminatorField(schema *ast.Schema,
 			case ast.KindConstantRef:
 				candidates[typeName][field.Name] = field.Type.AsConstantRef().ReferenceValue // TODO: Check if its a string
 			}
+			candidateNames[typeName] = append(candidateNames[typeName], field.Name)
 		}
 	}
 
@@ -120,7 +124,7 @@ func (pass *DisjunctionInferMapping) inferDiscriminatorField(schema *ast.Schema,
 		allTypes = append(allTypes, typeName)
 	}
 
-	for candidateFieldName := range candidates[someType] {
+	for _, candidateFieldName := range candidateNames[someType] {
 		existsInAllBranches := true
 		for _, branchTypeName := range allTypes {
 			if _, ok := candidates[branchTypeName][candidateFieldName]; !ok {
